@@ -6,7 +6,7 @@ use samlang_ast::Description;
 use samlang_errors::{ErrorDetail, ErrorSet};
 use samlang_heap::Heap;
 use serde_json::{Value, json};
-use std::collections::{BTreeMap, HashMap, HashSet};
+use std::collections::{HashMap, HashSet};
 use std::sync::Mutex;
 use std::sync::atomic::{AtomicU64, Ordering};
 use vcore::run::{Run, guarded, machinery_failure, spaced_samples};
@@ -148,7 +148,11 @@ fn matches(p: &Pat, v: &Val) -> bool {
   }
 }
 
-fn render(p: &Pat, ty: &Ty) -> String {
+/// `spelling` chooses how the fields of a struct pattern are written (the pattern denoted is the same):
+/// 0 = declared order, 1 = reverse order, 2 = declared order rotated by one (every field has to be
+/// mentioned, the checker rejects a pattern that leaves one out).
+fn render_spelt(p: &Pat, ty: &Ty, spelling: u8) -> String {
+  let render = |p: &Pat, ty: &Ty| render_spelt(p, ty, spelling);
   match p {
     Pat::Wild => "_".into(),
     Pat::Var(i) => format!("v{i}"),
@@ -165,10 +169,13 @@ fn render(p: &Pat, ty: &Ty) -> String {
       let comps = ty.components().unwrap();
       let wide = comps.len() > 2;
       let name = |i: usize| if wide { format!("f{i}") } else { ["a", "b"][i].to_string() };
-      format!(
-        "{{ {} }}",
-        ps.iter().zip(&comps).enumerate().map(|(i, (p, t))| format!("{} as {}", name(i), render(p, t))).collect::<Vec<_>>().join(", ")
-      )
+      let mut fields: Vec<(usize, &Pat, &Ty)> = ps.iter().zip(&comps).enumerate().map(|(i, (p, t))| (i, p, t)).collect();
+      match spelling {
+        1 => fields.reverse(),
+        2 => fields.rotate_left(1),
+        _ => {}
+      }
+      format!("{{ {} }}", fields.iter().map(|(i, p, t)| format!("{} as {}", name(*i), render(p, t))).collect::<Vec<_>>().join(", "))
     }
     Pat::Product(false, ps) => {
       let comps = ty.components().unwrap();
@@ -336,11 +343,14 @@ enum Kind {
 struct Case {
   ty: Ty,
   kind: Kind,
+  /// how struct patterns are written, see `render_spelt`
+  spelling: u8,
 }
 
 impl Case {
   fn source_line(&self, i: usize) -> String {
     let t = self.ty.text();
+    let render = |p: &Pat, ty: &Ty| render_spelt(p, ty, self.spelling);
     match &self.kind {
       Kind::Match(arms) => format!(
         "  function f{i}(x: {t}): int = match x {{ {} }}",
@@ -452,7 +462,7 @@ fn main() {
         }
       }
       for l in &next {
-        cases.push(Case { ty: ty.clone(), kind: Kind::Match(l.clone()) });
+        cases.push(Case { ty: ty.clone(), kind: Kind::Match(l.clone()), spelling: 0 });
       }
       lists = next;
       // the largest types would explode at 4 arms: bound them by pattern count
@@ -461,8 +471,8 @@ fn main() {
       }
     }
     for p in &ps {
-      cases.push(Case { ty: ty.clone(), kind: Kind::Let(p.clone()) });
-      cases.push(Case { ty: ty.clone(), kind: Kind::IfLet(p.clone()) });
+      cases.push(Case { ty: ty.clone(), kind: Kind::Let(p.clone()), spelling: 0 });
+      cases.push(Case { ty: ty.clone(), kind: Kind::IfLet(p.clone()), spelling: 0 });
     }
     if matches!(ty, Ty::Wide16 | Ty::Wide16L | Ty::Wide9) {
       continue;
@@ -473,9 +483,9 @@ fn main() {
     let shallow: Vec<Pat> = pats(ty, 1);
     let pool: Vec<&Pat> = same.iter().chain(shallow.iter()).collect();
     for p in &same {
-      cases.push(Case { ty: ty.clone(), kind: Kind::Let(p.clone()) });
-      cases.push(Case { ty: ty.clone(), kind: Kind::IfLet(p.clone()) });
-      cases.push(Case { ty: ty.clone(), kind: Kind::Match(vec![p.clone()]) });
+      cases.push(Case { ty: ty.clone(), kind: Kind::Let(p.clone()), spelling: 0 });
+      cases.push(Case { ty: ty.clone(), kind: Kind::IfLet(p.clone()), spelling: 0 });
+      cases.push(Case { ty: ty.clone(), kind: Kind::Match(vec![p.clone()]), spelling: 0 });
     }
     let third: Vec<Option<&Pat>> = if run.quick() { vec![None] } else { std::iter::once(None).chain(shallow.iter().map(Some)).collect() };
     for (ai, a) in pool.iter().enumerate() {
@@ -488,7 +498,7 @@ fn main() {
           if let Some(c) = c {
             arms.push((*c).clone());
           }
-          cases.push(Case { ty: ty.clone(), kind: Kind::Match(arms) });
+          cases.push(Case { ty: ty.clone(), kind: Kind::Match(arms), spelling: 0 });
         }
       }
     }
@@ -519,21 +529,41 @@ fn main() {
     }
     space.insert(format!("wide_rows_for_{}", ty.text()), json!(rows.len()));
     for r in &rows {
-      cases.push(Case { ty: ty.clone(), kind: Kind::Let(r.clone()) });
-      cases.push(Case { ty: ty.clone(), kind: Kind::IfLet(r.clone()) });
-      cases.push(Case { ty: ty.clone(), kind: Kind::Match(vec![r.clone()]) });
+      cases.push(Case { ty: ty.clone(), kind: Kind::Let(r.clone()), spelling: 0 });
+      cases.push(Case { ty: ty.clone(), kind: Kind::IfLet(r.clone()), spelling: 0 });
+      cases.push(Case { ty: ty.clone(), kind: Kind::Match(vec![r.clone()]), spelling: 0 });
     }
     for a in &rows {
       for c in &rows {
-        cases.push(Case { ty: ty.clone(), kind: Kind::Match(vec![a.clone(), c.clone()]) });
+        cases.push(Case { ty: ty.clone(), kind: Kind::Match(vec![a.clone(), c.clone()]), spelling: 0 });
         if !run.quick() || ty == Ty::Wide16 {
           for d in rows.iter().step_by(if run.quick() { 4 } else { 1 }) {
-            cases.push(Case { ty: ty.clone(), kind: Kind::Match(vec![a.clone(), c.clone(), d.clone()]) });
+            cases.push(Case { ty: ty.clone(), kind: Kind::Match(vec![a.clone(), c.clone(), d.clone()]), spelling: 0 });
           }
         }
       }
     }
   }
+  // every case that contains a struct pattern again with its fields written in another order (reversed,
+  // rotated): the checker must place each sub-pattern by field name, not by position
+  let mut respelt: Vec<Case> = vec![];
+  for c in &cases {
+    if !matches!(c.ty, Ty::S | Ty::W | Ty::Wide16 | Ty::Wide16L | Ty::Wide9) {
+      continue;
+    }
+    let base = c.source_line(0);
+    let mut seen = vec![base];
+    for spelling in 1..=2u8 {
+      let c2 = Case { spelling, ..c.clone() };
+      let line = c2.source_line(0);
+      if !seen.contains(&line) {
+        seen.push(line);
+        respelt.push(c2);
+      }
+    }
+  }
+  space.insert("cases_under_other_struct_field_spellings".into(), json!(respelt.len()));
+  cases.extend(respelt);
   space.insert("total_cases".into(), json!(cases.len()));
   let value_cache: HashMap<Ty, Vec<Val>> = types.iter().chain(wide_types.iter()).map(|t| (t.clone(), values(t, 4))).collect();
   let evaluated = AtomicU64::new(0);
